@@ -1619,6 +1619,11 @@ class Executor:
                 # a name bound to a function/class before the loop and re-bound inside it: unknown at the
                 # loop head (using it before the body assigns it is then an unknown-name error)
                 h.env.pop(n, None)
+            elif n in h.env and h.env[n] is VNone and self.infer_local_type(n, s.body, h.env, set()) is not None:
+                # `x = None` before the loop, assigned inside it: Optional of the type the body gives it (typing only;
+                # a wrong guess surfaces as a type error of the verifier, never as a verdict)
+                t_ = self.infer_local_type(n, s.body, h.env, set())
+                h.env[n] = fresh(t_ if t_.kind == 'opt' else TOpt(t_), n)
             elif n in h.env and not isinstance(h.env[n], tuple):
                 old = h.env[n]
                 h.env[n] = self.havoc_like(old, n, s)
@@ -1692,6 +1697,36 @@ class Executor:
         else:
             rs = self.eval(test, h)
         return self.res_to_out(rs, after_test)
+
+    def infer_local_type(self, name, body, env, seen):
+        """static type of a loop-local from the assignments in the loop body: another variable of known type, or the
+        declared return type of the (uniquely named) contracted method it is assigned from"""
+        if name in seen:
+            return None
+        seen = seen | {name}
+        for st in body:
+            for node in ast.walk(st):
+                if not (isinstance(node, ast.Assign) and len(node.targets) == 1 and isinstance(node.targets[0], ast.Name)
+                        and node.targets[0].id == name):
+                    continue
+                v = node.value
+                if isinstance(v, ast.Constant) and v.value is None:
+                    continue
+                if isinstance(v, ast.Name):
+                    if v.id in env and env[v.id] is not VNone and not isinstance(env[v.id], tuple):
+                        try:
+                            return ty_of(env[v.id])
+                        except Exception:
+                            pass
+                    t = self.infer_local_type(v.id, body, env, seen)
+                    if t is not None:
+                        return t
+                if isinstance(v, ast.Call) and isinstance(v.func, ast.Attribute):
+                    rts = {repr(c.returns): c.returns for q, c in CONTRACTS.items()
+                           if q.endswith('.' + v.func.attr) and c.returns is not None}
+                    if len(rts) == 1:
+                        return list(rts.values())[0]
+        return None
 
     def havoc_like(self, old, name, node):
         if isinstance(old, VInt):
